@@ -292,9 +292,9 @@ def run(ctx):
     for cls in CLASSES:
         # text family 0 (digits) and 1 (first bytes 0x40 / 0x80 / 0xbf ... : ASCII and high-bit keys mixed)
         objcheck.replay_cover(ctx, g, [tok(INIT)], exe, cls, [cls, str(nk), str(nv), "0", "full"], keyfn, walks=walks, jobs=4,
-                              pairs=(40000 if ctx.tier == "quick" else 200000))
+                              pairs=(40000 if ctx.tier == "quick" else 100000))
         objcheck.replay_cover(ctx, g, [tok(INIT)], exe, cls + "/highbit-keys", [cls, str(nk), str(nv), "1", "full"], keyfn,
-                              walks=walks, jobs=4)
+                              walks=(walks if ctx.tier == "quick" else (1000, 60)), jobs=4)
     trace_validation(ctx, exe)
     ctx.cov["exhaustive"] = True
     ctx.cov["rule"] = ("every transition TLC generates for MapDict in the bounded scope is executed once per class and per key text family "
